@@ -22,7 +22,7 @@ from pynenc.trigger.conditions import (
     CompositeLogic,
 )
 from pynenc.util.sqlite_utils import create_sqlite_connection as sqlite_conn
-from pynenc.util.sqlite_utils import TableNames, delete_tables_with_prefix
+from pynenc.util.sqlite_utils import TableNames, delete_tables
 
 if TYPE_CHECKING:
     from pynenc.app import Pynenc
@@ -415,5 +415,5 @@ class SQLiteTrigger(BaseTrigger):
             conn.commit()
 
     def _purge(self) -> None:
-        delete_tables_with_prefix(self.sqlite_db_path, self.tables.table_prefix)
+        delete_tables(self.sqlite_db_path, self.tables.all_tables())
         self._init_tables()
